@@ -14,9 +14,11 @@ EXPLANATION = (
     "wow_world_messages/wow_world_base resp. wow_login_messages) is followed and every reachable panic site is enumerated: "
     "MIR Assert terminators (overflow, bounds, division), calls into the panic machinery, unwrap/expect, panicking std "
     "indexing, and every allocation-like call. Each site must be discharged by one of a closed set of local arguments "
-    "(constant index into fixed array, operand ranges derived from types/casts by interval analysis, bounded loop variable, "
-    "in-memory-size axiom, prefix-size relation, guard dominating an allocation) or by a tabled one-line reason; anything "
-    "else is a finding. Loops on decode paths must make progress by a fallible read."
+    "(constant index into fixed array, operand ranges from a flow-sensitive interval analysis - conditions, match arms, loop counters "
+    "and accumulators, bounded vector lengths, dead match arms, summaries of small helpers -, exhaustive evaluation of pure integer "
+    "expressions over a small input domain, in-memory-size axiom, prefix-size relation, guard dominating an allocation); anything "
+    "else is a finding (there is no table of excused sites). Loops on decode paths must make progress by a fallible read or have a "
+    "counter that only grows towards a bound the loop does not change."
 )
 
 ENTRY_RE = re.compile(r"^(tokio_|astd_)?(read_unencrypted|read_encrypted|read|read_protocol|read_initial_message|expect_(client|server)_message(_encryption|_protocol)?)$")
@@ -25,7 +27,8 @@ INDEX_CALL = re.compile(r"as std::ops::index::Index(Mut)?<")
 ALLOC_CALL = re.compile(r"^std::vec::Vec::<T>::with_capacity$|^std::vec::from_elem$|^std::vec::Vec::<T(, A)?>::(reserve|reserve_exact|resize|resize_with)$|^std::string::String::with_capacity$|^std::io::Read::read_to_end$|^std::io::Read::read_to_string$|^std::iter::repeat|^std::vec::Vec::<T(, A)?>::extend_from_slice$")
 ALLOC_BUDGET_COUNT = 0xFFFFFF  # elements: the largest frame any header can announce
 
-# tabled discharges: (function path suffix, site kind) -> reason.  One named symbol + one-line reason each.
+# tabled discharges: none.  (Until round 17 thirteen sites were excused here by (function, site kind, count); a change that kept the
+# count passed unseen, so the analysis was extended until it proves them.)  The mechanism is kept empty on purpose.
 TABLED = {
 }
 
@@ -162,6 +165,15 @@ class ParamRanges:
                         lit = a0
                     fv = next((v for f, v in lit[2] if f == field), None) if lit is not None and H.tag(lit) == "struct" else None
                     r = chk.ranger.rng(fv, env, seq) if fv is not None else None
+                    if r is None and H.tag(a0) == "path" and a0[1].startswith(("crate::", "<crate::")):
+                        # a constant built by a `const fn` (`BitField::after(Some(&Self::MINUTES), 5)`): its value is computed
+                        from ..minieval import Mini, Unsupported, Panic
+                        try:
+                            cv = Mini({k: v for k, v in self.G.F.items()}, c).const(a0[1])
+                        except (Unsupported, Panic, KeyError, TypeError, ValueError, IndexError, AttributeError, RecursionError):
+                            cv = None
+                        if isinstance(cv, tuple) and len(cv) == 3 and cv[0] == "struct" and isinstance(cv[2], dict) and isinstance(cv[2].get(field), int) and not isinstance(cv[2].get(field), bool):
+                            r = (cv[2][field], cv[2][field])
                     if r is None and H.tag(a0) == "local":
                         # the argument is itself a parameter of the calling function (`self.mask()` inside `get(self, ..)`): its callers decide
                         pn = [q[1] for q in rec["params"] if H.tag(q) == "bind"]
@@ -256,6 +268,14 @@ class SiteChecker:
                 return None
             return self.params.get_field(self.gp, names.index(name), field)
         self.ranger.param_field_range = param_field_range
+
+        def call_concrete(path, args, crate=crate, G=g):
+            from ..minieval import Mini, Unsupported, Panic
+            try:
+                return Mini(dict(G.F), crate).call_fn(path, list(args))
+            except (Unsupported, Panic, KeyError, TypeError, ValueError, IndexError, AttributeError, RecursionError):
+                return None
+        self.ranger.call_concrete = call_concrete
         self.by_span = {}
         self.loops = []  # (loop node, env)
         w = Walker(self.ranger, self.on_node)
